@@ -347,6 +347,21 @@ def make_cases(ctx, rng, cd, witnesses, gdict):
     for fr, st, d, x in small:
         for k in range(len(fr)):
             add("F", fr[:k], "truncate-every-byte", dict_=d, cap=len(x) + 16)
+    # the same with checksum verification switched off (ZSTD_d_forceIgnoreChecksum): the 4 checksum bytes still belong to the
+    # frame and must be there; the last bytes of checksummed frames are cut one by one, and mutated frames are decoded that way too
+    nck = 0
+    for fr, st, d, x in sorted(valid, key=lambda v: len(v[0])):
+        if fr[:4] != MAGIC or len(fr) < 12 or not (fr[4] >> 2) & 1 or len(fr) > 70000:
+            continue
+        nck += 1
+        if nck > (14 if quick else 80):
+            break
+        add("F", fr, "valid-nock", dict_=d, cap=len(x) + rng.choice([0, 1, 100]), flags="nock", base=x)
+        for k in range(1, 9):
+            add("F", fr[:len(fr) - k], "truncate-nock", dict_=d, cap=len(x) + 16, flags="nock")
+        for _ in range(3):
+            m, tag = mutate(rng, fr, st, others)
+            add("F", m, "mut-nock:" + tag, dict_=d, flags="nock")
     # (3) random bytes behind a valid magic / semi-structured random frames
     for i in range(160 if quick else 1500):
         r = rng.random()
@@ -574,7 +589,7 @@ def evaluate(ctx, cd, model_exe, cases, out, crashes, npmax, variant):
         # w=2^32: ZSTD_decompress has no window limit of its own (no window buffer): every Window_Descriptor with
         # windowLog <= ZSTD_WINDOWLOG_MAX is accepted, mantissa included (up to 3.75 GiB).  R's default limit of 2^31 is a
         # caller policy ("limit" class), not a safety check; the window-log bound itself is site 417.
-        fl = "nostrict,w=4294967296" + (",magicless" if "ml" in c["flags"] else "")
+        fl = "nostrict,w=4294967296" + (",magicless" if "ml" in c["flags"].split(",") else "") + (",nocheck" if "nock" in c["flags"] else "")
         rin.append((c["id"], fl, c["dict"], c["data"]))
     t0 = time.time()
     if variant == "asan":
@@ -658,7 +673,7 @@ def evaluate(ctx, cd, model_exe, cases, out, crashes, npmax, variant):
         # libzstd does not enforce "offset <= windowSize" on either path, so on a frame that BREAKS the window rule (R with
         # the strict window: safety/341; without it: accepted) the two legitimately regenerate different bytes - inside
         # their buffers (the sanitizer build is what says so).  Anything else that makes two paths differ is a violation.
-        strict = cd.model([(c["id"], "w=4294967296" + (",magicless" if "ml" in c["flags"] else ""), c["dict"], c["data"]) for c, _ in pathdiff])
+        strict = cd.model([(c["id"], "w=4294967296" + (",magicless" if "ml" in c["flags"].split(",") else "") + (",nocheck" if "nock" in c["flags"] else ""), c["dict"], c["data"]) for c, _ in pathdiff])
         tol = 0
         for c, fl in pathdiff:
             s = strict.get(c["id"])
